@@ -6,7 +6,7 @@
    as [tord]): every token's range is well formed, consecutive tokens do not overlap, and every token
    that is not a literal is non-empty (the range of a string literal covers its VALUE, which may be
    empty, and ends on its start line even when the literal spans lines). *)
-From GoldV Require Import Base Tokens Lexer AstKinds Tree Strings PComb Grammar Ladder RTComb LadderProofs ExprRT.
+From GoldV Require Import Base Tokens Lexer AstKinds Tree Strings PComb Grammar Ladder RTComb LadderProofs ExprRT Encase.
 From Coq Require Import Lia.
 
 (* ---------- positions ---------- *)
@@ -28,37 +28,12 @@ Proof.
   unfold pos_leb, pos_le. rewrite orb_true_iff, andb_true_iff, N.ltb_lt, N.eqb_eq, N.leb_le. reflexivity.
 Qed.
 
-(* Range::contains_pos: start <= pos <= end *)
-Definition contains (r : range) (p : pos) : bool := pos_leb (rstart r) p && pos_leb p (rend r).
-
 Lemma contains_spec r p : contains r p = true <-> pos_le (rstart r) p /\ pos_le p (rend r).
 Proof. unfold contains. rewrite andb_true_iff, !pos_leb_le. reflexivity. Qed.
 
 Definition range_wf (r : range) : Prop := pos_le (rstart r) (rend r).
 Definition encloses (outer inner : range) : Prop :=
   pos_le (rstart outer) (rstart inner) /\ pos_le (rend inner) (rend outer).
-
-(* ---------- search_encasing_node (manager/utils.rs:14-27) on Tree.node ---------- *)
-
-Fixpoint search (p : pos) (n : node) : node :=
-  match n with
-  | Node _ _ _ _ _ ch =>
-      match (fix go (l : list node) : option node :=
-               match l with
-               | [] => None
-               | c :: l' => if contains (nrange c) p then Some (search p c) else go l'
-               end) ch with
-      | Some r => r
-      | None => n
-      end
-  end.
-
-Definition search_go (p : pos) : list node -> option node :=
-  fix go (l : list node) : option node :=
-    match l with
-    | [] => None
-    | c :: l' => if contains (nrange c) p then Some (search p c) else go l'
-    end.
 
 Lemma search_unfold p n : search p n = match search_go p (nchildren n) with Some r => r | None => n end.
 Proof. destruct n; reflexivity. Qed.
